@@ -309,6 +309,10 @@ func genProduce(prop string, seed uint64) *Plan {
 				k["max_write_bytes"] = k["batch_max_bytes"] + 512 + k["topic_pad"]
 			}
 		}
+		if g.pct(40) {
+			// records carry the application's own, unordered timestamps
+			k["user_ts_pct"] = g.pick(30, 70, 100)
+		}
 		if g.pct(30) {
 			// a cluster of an older release
 			k["produce_cap_all"] = g.pick(7, 9, 10, 11, 12, 12, 12)
